@@ -135,6 +135,7 @@ class StageHarness(Harness):
     io_points = False
     fail_item = None  # C19: the item whose processing raises
     fail_exc = "runtime"  # ... and the exception family it raises
+    source_fail = None  # C19: the input image (index) that cannot be LOADED: the collection raises in the dispatching process
     max_states = 400000
     seed = 0
 
@@ -198,6 +199,10 @@ class StageHarness(Harness):
         exp = set(self.expected_items())
         got = set(mon.delivered) if hasattr(mon, "delivered") else set(mon.completed)
         alive = [p.name for p in sched.procs[1:] if not p.done]
+        if self.source_fail is not None:
+            if main.outcome[0] == "return":
+                viol.append(("returns-normally-after-input-error", "stage returned normally although input image %r could not be loaded; %d of %d inputs in the tiles" % (self.source_fail, len(got), len(exp))))
+            return viol, (main.outcome[0], main.outcome[1] if main.outcome[0] == "raise" else None, len(got))
         if self.fail_item is not None:
             # C19: the stage must fail visibly
             if main.outcome[0] == "return":
@@ -454,8 +459,10 @@ class Transform(StageHarness):
 class ListCollection(object):
     """Duck-typed ImageCollection over in-memory images."""
 
-    def __init__(self, images):
+    def __init__(self, images, fail_at=None, fail_exc="runtime"):
         self._images = images
+        self._fail_at = fail_at
+        self._fail_exc = fail_exc
 
     def descriptions(self):
         from toasty.image import ImageDescription
@@ -467,6 +474,9 @@ class ListCollection(object):
 
     def images(self):
         for i, img in enumerate(self._images):
+            if self._fail_at is not None and i == self._fail_at:
+                # an input whose header could be read but whose pixels cannot be loaded (truncated file)
+                raise FAULTS[self._fail_exc]("injected failure while loading input image %d" % i)
             c = copy.deepcopy(img)
             c.collection_id = "img%d" % i
             yield c
@@ -551,7 +561,7 @@ class _TileStage(StageHarness):
                 mon.delivered[(i,)] = 1
         viol, obs = StageHarness.at_terminal(self, sched, mon)
         locks = [f for f in _walk_files(sched.root) if f.endswith(".lock")]
-        if locks and self.fail_item is None:
+        if locks and self.fail_item is None and self.source_fail is None:
             viol.append(("lock-files-remain", "lock files left behind: %r" % (locks[:3],)))
         return viol, obs
 
@@ -673,7 +683,7 @@ class MultiTan(_TileStage):
 
         def collection():
             if not getattr(self, "from_files", False):
-                return ListCollection(imgs)
+                return ListCollection(imgs, fail_at=self.source_fail, fail_exc=self.fail_exc)
             # the inputs as FITS files of one shape and type, read through toasty's own collection with a blank
             # value (what `--blankval` gives): the loader's buffers are then part of what is explored
             from toasty import collection as _coll
@@ -765,7 +775,7 @@ class MultiWcs(_TileStage):
                 proc.compute_global_pixelization(Builder(pio))
             self._tmpl = proc
         proc = copy.copy(self._tmpl)
-        proc._collection = ListCollection(imgs)
+        proc._collection = ListCollection(imgs, fail_at=self.source_fail, fail_exc=self.fail_exc)
         mon = DeliveryMonitor()
         W = self.W
 
